@@ -458,6 +458,31 @@ def _parser(doc: dict, style: str, routing: str, extra: dict | None = None):
     return p
 
 
+def _openapi_parser(spec: dict, style: str, routing: str, extra: dict | None = None):
+    """the real OpenAPI parser (scopes schemas + paths + parameters) after `parse_raw()`"""
+    from datamodel_code_generator import OpenAPIScope
+    from datamodel_code_generator.model import pydantic as p1
+    from datamodel_code_generator.model import pydantic_v2 as p2
+    from datamodel_code_generator.parser.openapi import OpenAPIParser
+
+    mod = p1 if style == "v1" else p2
+    opts = {"contype": {}, "field": {"field_constraints": True}, "annotated": {"field_constraints": True, "use_annotated": True}}[routing]
+    opts = {**opts, **(extra or {})}
+    with warnings.catch_warnings():
+        warnings.simplefilter("ignore")
+        p = OpenAPIParser(
+            json.dumps(spec),
+            data_model_type=mod.BaseModel,
+            data_model_root_type=mod.RootModel if style == "v2" else mod.CustomRootType,
+            data_type_manager_type=mod.DataTypeManager,
+            data_model_field_type=mod.DataModelField,
+            openapi_scopes=[OpenAPIScope.Schemas, OpenAPIScope.Paths, OpenAPIScope.Parameters],
+            **opts,
+        )
+        p.parse_raw()
+    return p
+
+
 CON_TYPES = {"conint": "integer", "confloat": "number", "constr": "string"}
 ALIAS_TYPES = {
     "PositiveInt": ("integer", ("gt", 0.0)),
@@ -491,8 +516,8 @@ def _cons_from(d: dict) -> tuple:
 
 
 class RealIR:
-    def __init__(self, doc: dict, style: str, routing: str, extra: dict | None = None) -> None:
-        self.p = _parser(doc, style, routing, extra)
+    def __init__(self, doc: dict, style: str, routing: str, extra: dict | None = None, openapi: bool = False) -> None:
+        self.p = _openapi_parser(doc, style, routing, extra) if openapi else _parser(doc, style, routing, extra)
         # the discriminator pass of Parser.parse() (it rewrites the tag member of the alternatives' classes)
         from datamodel_code_generator.imports import Imports
 
@@ -528,6 +553,10 @@ class RealIR:
             if self.def_name(path) == name:
                 return r
         return None
+
+    def model_by_suffix(self, suffix: str):
+        found = [r for r in self.p.results if r.class_name.endswith(suffix)]
+        return found[0] if len(found) == 1 else None
 
     def root_model(self):
         for r in self.p.results:
